@@ -1,3 +1,4 @@
+import Oidc.Shapes
 import Oidc.Proofs.Codec
 import Oidc.Facts
 /-! # C09 — session cookies are opaque and tamper-evident without the session key (property theorems only)
@@ -75,5 +76,12 @@ def exMac (k m : Bytes) : Bytes := k ++ [0] ++ m
 example : decode exMac (fun b => some b) [7] [1, 2] 100 (encode exMac id [7] [1, 2] [5, 5] [9]) = some ([5, 5], [9]) := by decide
 example : decode exMac (fun b => some b) [7] [1, 3] 100 (encode exMac id [7] [1, 2] [5, 5] [9]) = none := by decide
 example : decode exMac (fun b => some b) [8] [1, 2] 100 (encode exMac id [7] [1, 2] [5, 5] [9]) = none := by decide
+
+/-! obligations against the regenerated program text of session.go: the functions these theorems rest on read, statement for
+    statement, as they did when the session model was written after them (`Oidc/Shapes.lean`) -/
+theorem text_deriveBlockKey_ok : Oidc.Shapes.Text_deriveBlockKey := by unfold Oidc.Shapes.Text_deriveBlockKey; rfl
+theorem text_NewSessionManager_ok : Oidc.Shapes.Text_NewSessionManager := by unfold Oidc.Shapes.Text_NewSessionManager; rfl
+theorem text_SessionManager_GetSession_ok : Oidc.Shapes.Text_SessionManager_GetSession := by unfold Oidc.Shapes.Text_SessionManager_GetSession; rfl
+theorem text_SessionManager_getTokenChunkSessions_ok : Oidc.Shapes.Text_SessionManager_getTokenChunkSessions := by unfold Oidc.Shapes.Text_SessionManager_getTokenChunkSessions; rfl
 
 end Oidc.Props.C09
